@@ -256,6 +256,14 @@ def _aux_pool(S, cfg, pool, W, main_spec):
     add('vmods', 'VM0', {'kind': 'nf', 'val': ['dict', [[S.pick(res), nf_list(
         [nf_list(nf_vals(SP.gen_mods(S, cfg, 1, 1))) for _ in range(S.randint(1, 2))]) if S.coin(0.6) else
         nf_list(nf_vals(SP.gen_mods(S, cfg, 1, 2)))]]]})
+    # the same rules in their most explicit documented form: nested groups of Mod OBJECTS, one group empty
+    all_mod = lambda vals: [['mod', v, m] for v, m in vals]     # noqa: E731
+    groups = [nf_list(all_mod(SP.gen_mods(S, cfg, 1, 1))) for _ in range(S.randint(1, 2))]
+    groups.insert(S.randint(0, len(groups)), nf_list([]))
+    add('vmods', 'VM1', {'kind': 'nf', 'val': ['dict', [[S.pick(res), nf_list(groups)]]]})
+    tgroups = [nf_list(all_mod(SP.gen_mods(S, cfg, 1, 1))), nf_list([])]
+    add('tmods', 'TM1', {'kind': 'nf', 'val': nf_list(tgroups[::S.pick([1, -1])]) if S.coin(0.5) else
+                         ['dict', [['', nf_list(tgroups)]]]})
     add('modlist', 'ML0', {'kind': 'nf', 'val': nf_list(nf_vals(SP.gen_mods(S, cfg, 1, 3)))})
     add('isolist', 'IL0', {'kind': 'nf', 'val': nf_list([['mod', i, 1] if S.coin(0.4) else i
                                                          for i in S.sample(SP.ISOTOPES[:5], S.randint(1, 2))])})
@@ -402,7 +410,11 @@ def _gen_long_plan(S, k, header, opnames):
         args = args or o.gen(S, W)
     if args is None:
         return {'header': header, 'pool': pool, 'events': events}
-    if 'size' not in args and 'max_mods' not in args:
+    if 'max_mods' in args:
+        # the variable-modification builder on protein-sized input: at most one site at a time, never re-modifying
+        args['max_mods'] = {'v': 1}
+        args['mode'] = {'v': 'skip'}
+    if 'size' not in args:
         for an, av in args.items():
             if isinstance(av, dict) and av.get('h') in ('A1', 'S0') and an in ('sequence', 'self', 'other'):
                 args[an] = {'h': 'A0'}
@@ -1520,8 +1532,11 @@ def shrink_candidates(plan):
         if ev['act'] != 'call':
             continue
         for an, av in ev['args'].items():
+            if an in ('size', 'max_mods'):
+                continue          # None means "all" there: another (and explosive) question
             if 'v' in av and av['v'] not in (None, False, 0, 1):
-                for simple in (None, False, 0, 1):
+                # a seed stays a seed: seed=None is the UNSEEDED call, which legitimately uses the caller's generator
+                for simple in ((0, 1) if an == 'seed' else (None, False, 0, 1)):
                     p2 = copy.deepcopy(plan)
                     p2['events'][i]['args'][an] = {'v': simple}
                     yield p2
